@@ -202,6 +202,8 @@ def run(chk, tier, seed):
         if st in ('proved', 'known', 'violation'):
             chk.case(key=('list', str(it[:6])))
     end_to_end(chk, tier, seed)
+    from checks import fixed_clauses
+    fixed_clauses.split_then_tilde(chk)
     chk.rule = (f'(a) every string of length <= {length} over the alphabet {ALPHA!r} x EXTMATCH on/off x PATHNAME on/off through WcSplit.split: never raises, never loses text, and for '
                 'strings whose brackets/groups are all terminated the pieces equal those of the specification splitter; (b) seeded lists of 0-3 inclusion and 0-2 exclusion '
                 'patterns (inline !/- and exclude=, as a list, joined by | under SPLIT, as a brace set under BRACE, permuted/repeated) x {NEGATE, MINUSNEGATE, NEGATEALL, DOTMATCH, NODIR} '
